@@ -16,12 +16,14 @@ KNOWN_F32_BOUND = 'f32-bound-debug-assert'
 KNOWN_TEXTPATH = 'textpath-huge-path'
 KNOWN_USE = 'use-expansion-loop'          # shared with C03: Err instead of a tree, not a totality violation
 
-# CPU-time budget of one Tree::from_data call: A + B * bytes (microseconds).
-# Noise floor measured on the whole corpus + generated streams (16 workers in parallel, 3 runs):
-#   release: max over corpus 0.41 s (structure/style/external-CSS ... text heavy), use bombs that stop at the
-#            node limit 0.30 s, deepest legal nesting 0.03 s; debug: x8..x12.
-# A covers the constant work that the 1,000,000-node limit permits; B is 50 x the corpus's worst per-byte cost.
-BUDGET = {'release': (4_000_000, 400), 'debug': (40_000_000, 4000)}
+# CPU-time budget of one Tree::from_data call: A + B * bytes (microseconds, thread CPU time measured inside the worker).
+# Noise floor measured over the whole corpus (1695 files) with 16 workers on a loaded machine (load average 60):
+#   release: worst file 10.3 ms (text/font-size/named-value.svg), worst per-byte cost 8.8 us/byte (text/text/zalgo.svg)
+#   debug (opt-level 1 + overflow checks + debug assertions): 8.1 ms, 10.0 us/byte
+#   constant work allowed by the limits: use chain x512 (131 840 nodes) 0.50 s release / 0.72 s debug;
+#   use bombs stopped by the 1 000 000-node limit 0.20 - 0.28 s; deepest legal nesting 23 ms.
+# A = 7x the largest legal constant work, B = 45x the worst per-byte cost of the corpus.
+BUDGET = {'release': (4_000_000, 400), 'debug': (8_000_000, 800)}
 
 
 def text_nesting_depth(data):
@@ -189,7 +191,7 @@ def run(ctx):
             except (OSError, UnicodeDecodeError):
                 texts[p] = None
         return texts[p]
-    nmut = 1000 if quick else 40000
+    nmut = 1000 if quick else 8000
     small = [p for p in corpus if os.path.getsize(p) < 20000]
     made = 0
     while made < nmut:
@@ -203,7 +205,7 @@ def run(ctx):
             kind += '+' + kind2
         add("mutant(%s) of %s" % (kind, os.path.relpath(p, vlib.CORPUS)), 'mutant', m.encode('utf-8', 'replace'))
         made += 1
-    ngram = 800 if quick else 30000
+    ngram = 800 if quick else 6000
     for i in range(ngram):
         add("grammar %d" % i, 'grammar', G.grammar_doc(rng, els, ats, 10 + rng.below(60)).encode())
     for label, d in G.nesting_docs():
@@ -217,7 +219,7 @@ def run(ctx):
         d = G3.cycle_doc(kinds, places)
         add("refgraph %s" % '>'.join(kinds), 'refgraph', G3.to_svg(d).encode())
     # gzip of a sample of everything above
-    ngz = 300 if quick else 5000
+    ngz = 300 if quick else 1500
     pool = [x for x in inputs if x[4] is not None]
     for x in rng.sample(pool, min(ngz, len(pool))):
         add("gzip of " + x[0], 'gzip', G.gz(x[4]))
@@ -226,7 +228,7 @@ def run(ctx):
         data = open(p, 'rb').read()
         add("gzip of " + os.path.relpath(p, vlib.CORPUS), 'gzip', G.gz(data))
         inputs[-1] = inputs[-1][:3] + (len(data),) + inputs[-1][4:]
-    nmal = 600 if quick else 30000
+    nmal = 600 if quick else 6000
     seeds = []
     for _ in range(nmal):
         x = rng.choice(pool)
@@ -240,7 +242,7 @@ def run(ctx):
     heavy_set = set(heavy_idx)
     light_idx = [i for i in range(len(inputs)) if i not in heavy_set]
     jobs = [(i, '-') for i in light_idx]
-    ncross = 1000 if quick else 40000
+    ncross = 1000 if quick else 8000
     for _ in range(ncross):
         jobs.append((rng.choice(light_idx), rng.choice(G.OPTION_SETS[1:])))
     rng.shuffle(jobs)
